@@ -164,3 +164,29 @@ def run(ctx):
         ctx.ob('C05.5', ln, 'next-seq-from-truth', from_truth and not from_cache or (from_truth and from_cache and False),
                'Ok value derives from %s' % [c.rsplit('::', 1)[-1] for c in calls] + ('' if from_truth else ' — the sidecar is written after truth and best-effort, so after a crash between the two appends the restarted authority re-issues a seq'),
                line=st.get('ln'))
+
+    # ---------------------------------------------------------------- C05.6 / C05.7
+    from .c04 import c049
+    c049(ctx, rid='C05.6')
+    ctx.rule('C05.7', 'the thread index never runs ahead of truth: every save_index in ContinuityStore is either dominated by the Ok edge of the log append / create_continuity call that made the thread it names exist, or stores an id that was found by scanning the log. An index entry written before the creation frame survives a crash as a default thread with no frames — every later append to it fails.')
+    from .c01 import logical_append_sites
+    lsites = logical_append_sites(P, [x for x in P.callers(APPEND) if x.fn.path.startswith(STORE)])
+    saves = P.callers(r'^ripd::continuities::save_index$')
+    ctx.floor('C05.7', 'save_index call sites', len(saves), 2)
+    for sv in saves:
+        f = sv.fn
+        makers = [x for x in lsites if x.fn.path == f.path] + f.calls(r'ContinuityStore::create_continuity$')
+        after_truth = False
+        for mk in makers:
+            e = ok_edge_of_try(f, mk)
+            if e is not None and e[1] is not None and f.edge_dom(e[0], e[1], sv.bb):
+                after_truth = True
+        # what was put into the index before this save: ids from a log scan are fine
+        from_scan = False
+        ins = [i_ for i_ in f.calls(r'HashMap::<K, V, S, A>::insert$|BTreeMap::<K, V, A>::insert$') if f.can_reach(i_.bb, sv.bb) and 'String' in (i_.full or '')]
+        if ins and all(any(x[0] == 'call' and re.search(r'find_latest_continuity_for_workspace$|replay', x[1]) for x in sources(f, i_.args[2])) for i_ in ins if len(i_.args) > 2):
+            from_scan = True
+        ctx.ob('C05.7', f, 'index-after-truth', after_truth or from_scan,
+               'save_index %s' % ('runs only after the thread\'s creation frame is in the log' if after_truth else
+                                  'stores an id found by scanning the log' if from_scan else
+                                  'can run BEFORE the thread it names has a frame in the log: a crash in between leaves a default thread that does not exist'), line=sv.line)
